@@ -20,7 +20,9 @@ type memLedger struct {
 	index map[string]uint64
 }
 
-func newMemLedger() *memLedger { return &memLedger{regs: map[string][]byte{}, index: map[string]uint64{}} }
+func newMemLedger() *memLedger {
+	return &memLedger{regs: map[string][]byte{}, index: map[string]uint64{}}
+}
 func (l *memLedger) GetValue(owner, key []byte) ([]byte, error) {
 	if v, ok := l.regs[string(owner)+"|"+string(key)]; ok {
 		return v, nil
